@@ -128,7 +128,7 @@ class Source:
                 return o, match_close(self.masked, o)
         raise ExtractError('nested impl /%s/ not found' % header_re)
 
-    def find_fn(self, name, within=None, want_depth=None):
+    def find_fn(self, name, within=None, want_depth=None, pick=None):
         """returns (sig_start, body_open, body_close) of `fn name` inside the index range `within`."""
         lo, hi = within if within else (0, len(self.masked))
         pat = re.compile(r'(?:pub(?:\([a-z]+\))? )?(?:const )?(?:unsafe )?fn ' + re.escape(name) + r'\b')
@@ -145,6 +145,8 @@ class Source:
             want = want_depth if want_depth is not None else (1 if within else 0)
             if depth == want:
                 res.append(m)
+        if pick is not None and len(res) > pick:
+            res = [res[pick]]         # several cfg-alternatives of one function: the template names which one is compiled in the reference build
         if len(res) != 1:
             raise ExtractError('fn %s: expected exactly one definition, found %d in %s' % (name, len(res), self.path))
         m = res[0]
@@ -166,8 +168,8 @@ class Source:
             k += 1
         return m.start(), k, match_close(self.masked, k)
 
-    def fn_parts(self, name, within=None, want_depth=None):
-        s, o, c = self.find_fn(name, within, want_depth)
+    def fn_parts(self, name, within=None, want_depth=None, pick=None):
+        s, o, c = self.find_fn(name, within, want_depth, pick)
         return {
             'name': name,
             'sig': self.text[s:o].strip(),
@@ -669,6 +671,16 @@ class Rewriter:
         for name in ['truncate', 'clear']:
             b = self.map_calls(b, r'(?<![\w:])[a-z_][\w.]*\.%s' % name, thread(['hs', 'ds']), 'R12:thread-heap')
         b = self.sub('R22:slice-cloned-iter', r'\bother\.iter\(\)\.cloned\(\)', 'slice_cloned_iter(hs, other)', b)
+        b = self.sub('R22:slice-cloned-iter', r'\bself\.iter\(\)\.cloned\(\)', 'slice_cloned_iter(hs, self.as_slice())', b)
+        b = self.sub('R22:model-type', r'(?<![\w:])Vec::new_in\(', 'VecM::new_in(hs, ', b)
+        b = self.sub('R22:model-type', r'(?<![\w:])RawVec::new_in\(', 'RawVecM::new_in(hs, ', b)
+        b = self.sub('R22:model-type', r'(?<![\w:])ExtendElement\(', 'ExtendElement(', b)
+        b = self.sub('R22:clone-token', r'\bself\.0\.clone\(\)', 'elem_clone(&e.0)', b)
+        b = self.sub('R22:self-is-param', r'\bself\.0\b', 'e.0', b)
+        b = self.sub('R16:callback-next', r'\bvalue\.next\(\)', 'VecM::ee_next(&mut value)', b)
+        b = self.sub('R16:callback-last', r'\bvalue\.last\(\)', 'VecM::ee_last(value)', b)
+        for name in ['v.extend', 'self.extend_with', 'self.buf.try_reserve_exact', 'self.buf.try_reserve', 'self.buf.reserve_exact', 'self.buf.shrink_to_fit']:
+            b = self.map_calls(b, r'(?<![\w.])%s' % re.escape(name), thread(['hs']), 'R12:thread-heap')
         return b
 
 
